@@ -77,6 +77,20 @@ class Scope:
         elif isinstance(t, ast.Starred):
             yield from self._targets(t.value)
 
+    def _pair_targets(self, t, v):
+        """(name, target node, value node or None): element-wise for `a, b = x, y`."""
+        if isinstance(t, ast.Name):
+            yield t.id, t, v
+        elif isinstance(t, (ast.Tuple, ast.List)):
+            if isinstance(v, (ast.Tuple, ast.List)) and len(v.elts) == len(t.elts) and not any(isinstance(e, ast.Starred) for e in list(t.elts) + list(v.elts)):
+                for te, ve in zip(t.elts, v.elts):
+                    yield from self._pair_targets(te, ve)
+            else:
+                for te in t.elts:
+                    yield from self._pair_targets(te, None)
+        elif isinstance(t, ast.Starred):
+            yield from self._pair_targets(t.value, None)
+
     def _collect(self, root):
         for node in ast.walk(root):
             if node is not root and isinstance(node, (ast.FunctionDef, ast.AsyncFunctionDef, ast.ClassDef)):
@@ -88,9 +102,9 @@ class Scope:
                 continue
             if isinstance(node, ast.Assign):
                 for t in node.targets:
-                    for name, tn, simple in self._targets(t):
-                        self._add(Def(name, "assign" if simple and len(node.targets) == 1 else "unpack", node,
-                                      node.value if simple and len(node.targets) == 1 else None,
+                    for name, tn, val in self._pair_targets(t, node.value):
+                        simple = val is not None and len(node.targets) == 1
+                        self._add(Def(name, "assign" if simple else "unpack", node, val if simple else None,
                                       self.order[node], self.block_of.get(node), tn))
                     if isinstance(t, ast.Subscript) and isinstance(t.value, ast.Name):
                         self.mutated.add(t.value.id)
@@ -202,6 +216,22 @@ class Scope:
             child = p
             p = self.parent.get(p)
         out.reverse()
+        return out
+
+    def guard_conjuncts(self, node):
+        """guards(node) with `a and b` (positive) / `a or b` (negative) split into their parts."""
+        out = []
+
+        def split(t, pol):
+            if isinstance(t, ast.BoolOp) and ((isinstance(t.op, ast.And) and pol) or (isinstance(t.op, ast.Or) and not pol)):
+                for v in t.values:
+                    split(v, pol)
+            elif isinstance(t, ast.UnaryOp) and isinstance(t.op, ast.Not):
+                split(t.operand, not pol)
+            else:
+                out.append((t, pol))
+        for t, pol in self.guards(node):
+            split(t, pol)
         return out
 
     # -- reaching definitions -------------------------------------------------
